@@ -308,3 +308,31 @@ func firstSentence(s string) string {
 	}
 	return s
 }
+
+// importObls evaluates another property's rules on the same program and files the obligations selected
+// by keep under rule `to` of this check (same construct key, so known-findings and floors stay per rule).
+func importObls(c *Check, otherID string, other func(*Check), to string, keep func(*Obligation) bool) int {
+	tc := NewCheck(otherID, c.Tier, c.VerifDir, c.P)
+	func() {
+		defer func() {
+			if r := recover(); r != nil {
+				c.Fail(to, "imported-rules-of-"+otherID, "-", fmt.Sprintf("the rules of %s did not complete: %v", otherID, r))
+			}
+		}()
+		other(tc)
+	}()
+	n := 0
+	for _, o := range tc.Obls {
+		if !keep(o) {
+			continue
+		}
+		construct := strings.TrimPrefix(o.Key, o.Rule+"/")
+		if o.Status == "violated" {
+			c.Fail(to, construct, o.Where, o.Why)
+		} else {
+			c.Pass(to, construct, o.Where, o.Why)
+		}
+		n++
+	}
+	return n
+}
